@@ -309,15 +309,14 @@ func (s *bsys) structure(i int, t *Term) {
 			s.upper(i, 1<<31-1)
 			s.axiom["GCAServer.equipmentReportsOffset < 2^31 (a timeslot value)"] = true
 		}
-		if len(t.A) == 1 && t.A[0].K == KFA && (t.A[0].S == "logMaxLineBytes" || t.A[0].S == "logMaxBytes") {
+		if len(t.A) == 1 && t.A[0].K == KFA && (t.A[0].S == "logMaxLineBytes" || t.A[0].S == "logMaxBytes" || t.A[0].S == "logSizeBytes") {
+			limit := int64(1) << 56
+			if s.fi.P.IntBits == 32 {
+				limit = 1 << 29
+			}
 			s.lower(i, 0)
-			s.upper(i, 1<<56)
-			s.axiom["EventLogger limits are non-negative byte counts below 2^56 (the constructor is only called with positive constants: C18 rule CFG)"] = true
-		}
-		if len(t.A) == 1 && t.A[0].K == KFA && t.A[0].S == "logSizeBytes" {
-			s.lower(i, 0)
-			s.upper(i, 1<<57)
-			s.axiom["EventLogger.logSizeBytes is twice the total length of the stored lines (C18 rule ACCOUNT), hence within [0, 2^57]"] = true
+			s.upper(i, limit)
+			s.axiom["EventLogger limits are positive byte counts of at most 2^29 (the constructor is only called with such constants: C18 rule CFG) and logSizeBytes never exceeds logMaxBytes (C18 rules ACCOUNT and BOUND-SZ)"] = true
 		}
 	}
 }
@@ -1085,42 +1084,80 @@ func (fi *FuncInfo) computePhiBounds() {
 	for _, phi := range phis {
 		top[phi] = fi.phiB[phi]
 	}
-	// (2) ascending iteration from bottom, clamped to the guard-only bounds
+	// (2) iteration from bottom with doubling widening and narrowing, clamped
+	// to the bounds of (1); the result is kept only if a final pass confirms
+	// it is a post-fixpoint (F(X) within X for every phi).
 	fi.phiMode = 2
 	for _, phi := range phis {
 		fi.phiB[phi] = [2]int64{inf, -inf} // bottom
 	}
+	evalPhi := func(phi *ssa.Phi) (int64, int64, bool) {
+		lo, hi := int64(inf), int64(-inf)
+		any := false
+		for k := range phi.Edges {
+			l, h, skip := fi.edgeBounds(phi, k)
+			if skip {
+				continue
+			}
+			any = true
+			if l < lo {
+				lo = l
+			}
+			if h > hi {
+				hi = h
+			}
+		}
+		t := top[phi]
+		if lo < t[0] {
+			lo = t[0]
+		}
+		if hi > t[1] {
+			hi = t[1]
+		}
+		return lo, hi, any
+	}
+	grow := map[*ssa.Phi]int{}
 	stable := false
-	for round := 0; round < 40 && !stable; round++ {
+	for round := 0; round < 60 && !stable; round++ {
 		stable = true
 		for _, phi := range phis {
 			cur := fi.phiB[phi]
-			lo, hi := cur[0], cur[1]
-			for k := range phi.Edges {
-				l, h, skip := fi.edgeBounds(phi, k)
-				if skip {
-					continue
-				}
-				if l < lo {
-					lo = l
-				}
-				if h > hi {
-					hi = h
-				}
+			lo, hi, any := evalPhi(phi)
+			if !any {
+				continue
 			}
 			t := top[phi]
-			if lo < t[0] {
-				lo = t[0]
-			}
-			if hi > t[1] {
-				hi = t[1]
-			}
-			if round >= 4 { // widen what still moves
-				if lo < cur[0] && cur[0] <= cur[1] {
-					lo = t[0]
+			if cur[0] <= cur[1] { // not bottom
+				grew := false
+				if lo < cur[0] {
+					grew = true
+				} else if round < 30 {
+					lo = cur[0] // keep while ascending; narrowing happens once nothing grows
 				}
-				if hi > cur[1] && cur[0] <= cur[1] {
-					hi = t[1]
+				if hi > cur[1] {
+					grew = true
+				} else if round < 30 {
+					hi = cur[1]
+				}
+				if grew {
+					grow[phi]++
+					if grow[phi] >= 3 {
+						// doubling widening towards the sound outer bound
+						if hi > cur[1] {
+							w := hi*4 + 64
+							if grow[phi] > 9 || hi > inf/8 || w > t[1] {
+								w = t[1]
+							}
+							hi = w
+						}
+						if lo < cur[0] {
+							w := lo*4 - 64
+							if grow[phi] > 9 || lo < -inf/8 || w < t[0] {
+								w = t[0]
+							}
+							lo = w
+						}
+					}
 				}
 			}
 			if lo != cur[0] || hi != cur[1] {
@@ -1128,9 +1165,49 @@ func (fi *FuncInfo) computePhiBounds() {
 				stable = false
 			}
 		}
+		if stable && round < 30 {
+			// switch to narrowing: recompute everything from the current state
+			round = 29
+			stable = false
+			changed := false
+			for _, phi := range phis {
+				cur := fi.phiB[phi]
+				if cur[0] > cur[1] {
+					continue
+				}
+				lo, hi, any := evalPhi(phi)
+				if !any {
+					continue
+				}
+				if lo < cur[0] {
+					lo = cur[0]
+				}
+				if hi > cur[1] {
+					hi = cur[1]
+				}
+				if lo != cur[0] || hi != cur[1] {
+					fi.phiB[phi] = [2]int64{lo, hi}
+					changed = true
+				}
+			}
+			if !changed {
+				stable = true
+			}
+		}
 	}
-	if !stable {
-		// no post-fixpoint reached: fall back to the guard-only bounds
+	// final post-fixpoint check
+	ok := true
+	for _, phi := range phis {
+		cur := fi.phiB[phi]
+		if cur[0] > cur[1] {
+			continue
+		}
+		lo, hi, any := evalPhi(phi)
+		if any && (lo < cur[0] || hi > cur[1]) {
+			ok = false
+		}
+	}
+	if !ok {
 		for _, phi := range phis {
 			fi.phiB[phi] = top[phi]
 		}
